@@ -67,7 +67,7 @@ def check_vector(v):
             if prog[0]["op"] == "read_chunks":
                 key = (fmt, variant, prog[0]["split"])
                 if key not in _K_CACHE:
-                    _K_CACHE[key] = tr.find_chunk_size(src, prog[0]["split"], True)
+                    _K_CACHE[key] = tr.find_chunk_size(src, prog[0]["split"], False)
                 K = _K_CACHE[key]
                 if K is None:
                     continue
